@@ -160,10 +160,15 @@ func runGate(g gworkload, watchdog time.Duration) string {
 	concTree := make([]string, n)
 	aloneOut := make([][]string, n)
 	aloneTree := make([]string, n)
+	concModes := make([]string, n)
+	aloneModes := make([]string, n)
 	stray, blocked := false, false
+	um := ""
 	finished := make(chan struct{})
 	go func() {
 		defer close(finished)
+		umask0 := processUmask()
+		defer func() { um = umaskItem(umask0) }()
 		base := os.Getenv("VERIF_SCRATCH")
 		if base == "" {
 			base = filepath.Join("/dev/shm", fmt.Sprintf("verif.%d", os.Getpid()))
@@ -269,6 +274,7 @@ func runGate(g gworkload, watchdog time.Duration) string {
 		<-freeDone
 		for i, cl := range g.clients {
 			concTree[i] = subtree(dirOf[i], cl.name)
+			concModes[i] = modes(dirOf[i], cl.name)
 		}
 		names := map[string]bool{}
 		for _, cl := range g.clients {
@@ -293,6 +299,7 @@ func runGate(g gworkload, watchdog time.Duration) string {
 				aloneOut[i] = append(aloneOut[i], runOp(c, cl.name, o))
 			}
 			aloneTree[i] = subtree(dir, cl.name)
+			aloneModes[i] = modes(dir, cl.name)
 			done()
 		}
 	}()
@@ -304,8 +311,9 @@ func runGate(g gworkload, watchdog time.Duration) string {
 	}
 	items := []string{"gobs", hx.B(stray), "0", hx.B(blocked)}
 	for i := range g.clients {
-		items = append(items, hx.L("cl", hx.L(concOut[i]...), concTree[i], hx.L(aloneOut[i]...), aloneTree[i]))
+		items = append(items, hx.L("cl", hx.L(concOut[i]...), concTree[i], hx.L(aloneOut[i]...), aloneTree[i], concModes[i], aloneModes[i]))
 	}
+	items = append(items, um)
 	return g.Sx() + " " + hx.L(items...)
 }
 
